@@ -39,19 +39,19 @@ pub fn load_env(prop: Prop) -> Result<Env, String> {
 
 pub fn runs_for(prop: Prop, tier: Tier) -> u64 {
     let q = match prop {
-        Prop::C01 => 60_000,
-        Prop::C02 => 24_000,
-        Prop::C03 => 40_000,
-        Prop::C04 => 40_000,
-        Prop::C05 => 40_000,
-        Prop::C06 => 60_000,
-        Prop::C07 => 24_000,
-        Prop::C10 => 40_000,
+        Prop::C01 => 300_000,
+        Prop::C02 => 120_000,
+        Prop::C03 => 300_000,
+        Prop::C04 => 200_000,
+        Prop::C05 => 250_000,
+        Prop::C06 => 400_000,
+        Prop::C07 => 16_000,
+        Prop::C10 => 300_000,
         Prop::C11 => 4_000,
-        Prop::C12 => 6_000,
-        Prop::C13 => 3_000,
-        Prop::C15 => 16_000,
-        Prop::C17 => 32,
+        Prop::C12 => 4_000,
+        Prop::C13 => 2_400,
+        Prop::C15 => 100_000,
+        Prop::C17 => 16,
     };
     let q = match std::env::var("VERIF_RUNS").ok().and_then(|s| s.parse::<u64>().ok()) {
         Some(n) => n,
@@ -59,7 +59,10 @@ pub fn runs_for(prop: Prop, tier: Tier) -> u64 {
     };
     match tier {
         Tier::Quick => q,
-        Tier::Thorough => q * 10,
+        Tier::Thorough => match prop {
+            Prop::C17 => q * 4,
+            _ => q * 10,
+        },
     }
 }
 
